@@ -6,7 +6,7 @@ PID = "C17"
 MODULE, PKG, BIN = "x/go", "./verifh/c17", "c17"
 COQ_IMPORTS = "From Synnax Require Import Common.Base Core.Gorp Monitors.Mon_C17."
 CASE_TYPE = "case_t"
-COUNTS = {"quick": 700, "thorough": 20000}
+COUNTS = {"quick": 700, "thorough": 15000}
 SHARD = 90
 READY = True
 
